@@ -434,6 +434,16 @@ def check_property(prop, tier, seed, relock=False):
                                'source_root': src.root}, open(path, 'w'), indent=1)
                     violations.append((f'{k}:runtime-contract-check', path, {'confirmed': True}))
                     continue
+                if any(a['status'] == 'refuted' and a['function'] != k for a in agg.values()):
+                    # this function was verified against the CONTRACTS of its callees, and a contract of another function is refuted in
+                    # this very run: the native failure is the consequence of that violation seen from the caller, not an engine defect
+                    os.makedirs(os.path.join(OUT, 'replays'), exist_ok=True)
+                    path = os.path.join(OUT, 'replays', f"{prop}_{k.replace('/', '_').replace('[', '_').replace(']', '_')}_runtime_contract_check.json")
+                    json.dump({'property': prop, 'obligation': f'{k}:runtime-contract-check', 'function': k, 'inputs': fl['inputs'], 'failed_clauses': fl['failed'],
+                               'note': 'verified modularly against callee contracts, one of which is refuted in this run; the contract evaluated natively on the '
+                                       'real function fails for this input', 'source_root': src.root}, open(path, 'w'), indent=1)
+                    violations.append((f'{k}:runtime-contract-check', path, {'confirmed': True}))
+                    continue
                 checker_errors.append(f"contract of {k} fails on a concrete input although its obligations are discharged (unsound engine or axiom): {fl['failed']} inputs={json.dumps(fl['inputs'])[:300]}")
     except Exception as e:
         checker_errors.append(f'contract sampling crashed: {e!r}')
